@@ -24,7 +24,7 @@ def witness_model():
     while True:
         c = hc.make_case(rng, 1, ("nested",))
         if len(c["model"]["meshes"]) == 3: break
-    c["model"]["cond"] = {"D0": 1.0, "D1": 0.0125, "D2": 1.0, "Air": 0.0}
+    c["model"]["cond"] = {"D0": 0.33, "D1": 0.0125, "D2": 0.33, "Air": 0.0}       # S/m values: with k=1e-3 the products reach 1e-5
     return c
 
 def main(replay=None):
@@ -53,7 +53,7 @@ def main(replay=None):
                          dict(kind="kernel", op=op, ints=ints, args=[list(a) for a in args], cls="witness", size=1.0, R=None, t=[0, 0, 0], s=s, cases=lines[2 * n:2 * n + 2], outputs=outs[2 * n:2 * n + 2]))
     stats["threshold_witnesses"] = wres
     # 2. whole problems: fixed witness model at every s and k (s=100 was the reported break), then generated models
-    items = [("witness 3-layer sphere (radii from seed 31337, sigma 1/0.0125/1)", witness_model(),
+    items = [("witness 3-layer sphere (radii from seed 31337, sigma 0.33/0.0125/0.33)", witness_model(),
               [(None, (0.0, 0.0, 0.0), s, 1.0) for s in SCALES + [64.0, 128.0]] + [(None, (0.0, 0.0, 0.0), 1.0, k) for k in CONDS])]
     nmod = 5 if quick else 30
     kinds = ["nested", "split", "inclusions", "nested", "nonconductive", "nested"]
